@@ -214,3 +214,39 @@ def qpack_literal_block(headers):
         out += prefix_int(len(name), 3, 0x20) + name
         out += prefix_int(len(value), 7, 0x00) + value
     return bytes(out)
+
+
+# ------------------------------------------------------------------- replays
+def strip_answers(op):
+    """an op line without the oracle answers the adapter appended"""
+    t = op.split()
+    keep = []
+    for tok in t:
+        if len(tok) > 1 and tok[1] == ":" and tok[0] in "DREFVL":
+            break
+        keep.append(tok)
+    return " ".join(keep)
+
+
+def replay_broken(H3Impl, entries):
+    """re-run recorded model/implementation disagreements; returns #still disagreeing"""
+    bad = 0
+    for b in entries:
+        if b.get("kind") != "broken-correspondence" or not b.get("ops"):
+            print("REPLAY-NOTE not re-executable here (rerun the check):", b.get("kind"), b.get("module") or b.get("theorem") or "")
+            bad += 1
+            continue
+        ops = [strip_answers(o) for o in b["ops"]]
+        if ops[0].startswith("closef."):
+            print("REPLAY-NOTE close-frame correspondence is re-derived by the check itself")
+            bad += 1
+            continue
+        outs, mlines, impl, done = run_case(H3Impl, ops)
+        model = lean.run_driver(mlines)
+        if outs != model:
+            i = next(k for k in range(len(outs)) if outs[k] != model[k])
+            print(f"VIOLATION-DETAIL model and implementation still disagree at op {i}: {done[i][:120]}")
+            print("   impl :", outs[i][:300])
+            print("   model:", model[i][:300])
+            bad += 1
+    return bad
